@@ -5,9 +5,17 @@
   unparse  every file replaced by ast.unparse of itself (drops comments,
            normalises layout, quotes and parentheses)
   logging  a harmless statement inserted at the top of every function body
-  rename   (per property, in selftest/mutants.py) local renames
+  rename   every local variable, comprehension variable and lambda
+           parameter of every function renamed
+  hoist    extract-variable: the first non-trivial argument of every
+           statement-level call is computed into a fresh local first
+  flip     every two-armed `if X: A else: B` becomes `if not X: B else: A`
+           (also conditional expressions)
+  annot    every `name = v` in a function gets an annotation, every
+           annotated local loses it
+  swap     adjacent independent constant initialisations change places
 
-Usage: tools/neutral_sweep.py [format|unparse|logging] [Cxx ...]
+Usage: tools/neutral_sweep.py [all|format|unparse|logging|...] [Cxx ...]
 """
 from __future__ import annotations
 
@@ -154,6 +162,73 @@ def rename_locals(text: str) -> str:
         _Renamer().visit(tree))) + '\n'
 
 
+def _pure(e: ast.AST) -> bool:
+    """Evaluating e has no effect and cannot observe one (names, constants,
+    attribute chains)."""
+    while isinstance(e, ast.Attribute):
+        e = e.value
+    return isinstance(e, (ast.Name, ast.Constant))
+
+
+class _Hoister(ast.NodeTransformer):
+    """Extract-variable refactoring: in a simple statement whose value is a
+    call, the first non-trivial positional argument is computed into a fresh
+    local just before the statement.  Evaluation order is preserved because
+    everything evaluated before that argument is pure."""
+
+    def __init__(self) -> None:
+        self.k = 0
+        self.depth = 0
+
+    def _fn(self, n):
+        self.depth += 1
+        self.generic_visit(n)
+        self.depth -= 1
+        return n
+    visit_FunctionDef = visit_AsyncFunctionDef = _fn
+
+    def visit_Lambda(self, n):
+        return n
+
+    def _block(self, body):
+        out = []
+        for st in body:
+            call = None
+            if self.depth and isinstance(st, (ast.Expr, ast.Assign,
+                                              ast.Return)):
+                v = st.value
+                if isinstance(v, ast.Await):
+                    v = v.value
+                if isinstance(v, ast.Call) and _pure(v.func) and not any(
+                        isinstance(a, ast.Starred) for a in v.args):
+                    call = v
+            if call is not None:
+                for i, a in enumerate(call.args):
+                    if _pure(a):
+                        continue
+                    if any(isinstance(x, (ast.NamedExpr, ast.Await, ast.Yield,
+                                          ast.YieldFrom, ast.Lambda))
+                           for x in ast.walk(a)):
+                        break
+                    self.k += 1
+                    nm = f'_hoisted_{self.k}'
+                    out.append(ast.Assign(
+                        targets=[ast.Name(nm, ast.Store())], value=a,
+                        lineno=st.lineno, col_offset=st.col_offset))
+                    call.args[i] = ast.Name(nm, ast.Load())
+                    break
+            out.append(st)
+        return out
+
+    def generic_visit(self, node):
+        super().generic_visit(node)
+        for fld in ('body', 'orelse', 'finalbody'):
+            b = getattr(node, fld, None)
+            if isinstance(b, list) and b and isinstance(b[0], ast.stmt):
+                setattr(node, fld, self._block(b))
+        return node
+
+
 def overlay(kind: str) -> dict[str, str]:
     src = SourceSet(ROOT)
     out = {}
@@ -161,6 +236,122 @@ def overlay(kind: str) -> dict[str, str]:
         text = src.text(rel)
         if kind == 'unparse':
             new = ast.unparse(ast.parse(text)) + '\n'
+        elif kind == 'annot':
+            class A(ast.NodeTransformer):
+                """every `name = v` inside a function gets an annotation;
+                existing local annotations are dropped instead."""
+                depth = 0
+                banned: set = set()
+
+                def _fn(self, n):
+                    saved = self.banned
+                    self.banned = {x for s in ast.walk(n) if isinstance(
+                        s, (ast.Global, ast.Nonlocal)) for x in s.names}
+                    self.depth += 1
+                    self.generic_visit(n)
+                    self.depth -= 1
+                    self.banned = saved
+                    return n
+                visit_FunctionDef = visit_AsyncFunctionDef = _fn
+
+                def visit_ClassDef(self, n):
+                    saved, self.depth = self.depth, 0
+                    self.generic_visit(n)
+                    self.depth = saved
+                    return n
+
+                def visit_Assign(self, n):
+                    if self.depth and len(n.targets) == 1 and isinstance(
+                            n.targets[0], ast.Name) and n.targets[
+                            0].id not in self.banned:
+                        return ast.copy_location(ast.AnnAssign(
+                            target=n.targets[0],
+                            annotation=ast.Constant('object'),
+                            value=n.value, simple=1), n)
+                    return n
+
+                def visit_AnnAssign(self, n):
+                    if self.depth and isinstance(
+                            n.target, ast.Name) and n.value is not None:
+                        return ast.copy_location(ast.Assign(
+                            targets=[n.target], value=n.value,
+                            type_comment=None), n)
+                    return n
+            new = ast.unparse(ast.fix_missing_locations(
+                A().visit(ast.parse(text)))) + '\n'
+        elif kind == 'swap':
+            class S(ast.NodeTransformer):
+                """swap adjacent `a = e1; b = e2` when neither statement
+                reads or writes what the other writes and both right-hand
+                sides are call-free (no effects to reorder)."""
+
+                def generic_visit(self, node):
+                    super().generic_visit(node)
+                    for fld in ('body', 'orelse', 'finalbody'):
+                        b = getattr(node, fld, None)
+                        if not (isinstance(b, list) and b
+                                and isinstance(b[0], ast.stmt)):
+                            continue
+                        i = 0
+                        while i + 1 < len(b):
+                            if self._indep(b[i], b[i + 1]):
+                                b[i], b[i + 1] = b[i + 1], b[i]
+                                i += 2
+                            else:
+                                i += 1
+                    return node
+
+                @staticmethod
+                def _indep(s1, s2):
+                    def ok(s):
+                        return (isinstance(s, ast.Assign)
+                                and len(s.targets) == 1
+                                and isinstance(s.targets[0], ast.Name)
+                                and not any(isinstance(x, (
+                                    ast.Call, ast.Await, ast.Yield,
+                                    ast.NamedExpr, ast.Subscript,
+                                    ast.Attribute, ast.BinOp, ast.Compare))
+                                    for x in ast.walk(s.value)))
+                    if not (ok(s1) and ok(s2)):
+                        return False
+                    n1 = {x.id for x in ast.walk(s1) if isinstance(
+                        x, ast.Name)}
+                    n2 = {x.id for x in ast.walk(s2) if isinstance(
+                        x, ast.Name)}
+                    return not (n1 & n2)
+            new = ast.unparse(ast.fix_missing_locations(
+                S().visit(ast.parse(text)))) + '\n'
+        elif kind == 'flip':
+            class F(ast.NodeTransformer):
+                """`if X: A else: B` -> `if not X: B else: A` (elif chains
+                are left alone)."""
+
+                def visit_If(self, n):
+                    self.generic_visit(n)
+                    if n.orelse and not (len(n.orelse) == 1 and isinstance(
+                            n.orelse[0], ast.If)):
+                        if isinstance(n.test, ast.UnaryOp) and isinstance(
+                                n.test.op, ast.Not):
+                            n.test = n.test.operand
+                        else:
+                            n.test = ast.UnaryOp(ast.Not(), n.test)
+                        n.body, n.orelse = n.orelse, n.body
+                    return n
+
+                def visit_IfExp(self, n):
+                    self.generic_visit(n)
+                    if isinstance(n.test, ast.UnaryOp) and isinstance(
+                            n.test.op, ast.Not):
+                        n.test = n.test.operand
+                    else:
+                        n.test = ast.UnaryOp(ast.Not(), n.test)
+                    n.body, n.orelse = n.orelse, n.body
+                    return n
+            new = ast.unparse(ast.fix_missing_locations(
+                F().visit(ast.parse(text)))) + '\n'
+        elif kind == 'hoist':
+            new = ast.unparse(ast.fix_missing_locations(
+                _Hoister().visit(ast.parse(text)))) + '\n'
         elif kind == 'rename':
             new = rename_locals(text)
         elif kind == 'format':
@@ -220,6 +411,9 @@ def run_one(args):
 def main() -> int:
     kinds = [a for a in sys.argv[1:] if not a.startswith('C')] or [
         'unparse', 'logging', 'format']
+    if kinds == ['all']:
+        kinds = ['unparse', 'logging', 'format', 'rename', 'hoist', 'flip',
+                 'annot', 'swap']
     props = [a for a in sys.argv[1:] if a.startswith('C')] or PROPS
     bad = 0
     for kind in kinds:
